@@ -44,6 +44,23 @@ theorem loop_count' (test : St → R (Bool × St)) (body : St → Outcome) (step
     have := ih (fun i => P (i + 1)) (fun i => T (i + 1)) R (fun i hi => hstep (i + 1) (by omega)) hend f (by omega)
     rcases hb with hb | hb <;> simp [loop, ht, hb, hs, this]
 
+/-! ### statements -/
+
+theorem exec_seq_normal {fuel : Nat} {a b : Stmt} {st st' : St} (h : exec fuel a st = .normal st') :
+    exec fuel (.seq a b) st = exec fuel b st' := by simp [exec, h]
+
+theorem exec_seq_ret {fuel : Nat} {a b : Stmt} {st st' : St} {v : Val} (h : exec fuel a st = .ret v st') :
+    exec fuel (.seq a b) st = .ret v st' := by simp [exec, h]
+
+theorem exec_seq_fault {fuel : Nat} {a b : Stmt} {st : St} {f : Fault} (h : exec fuel a st = .fault f) :
+    exec fuel (.seq a b) st = .fault f := by simp [exec, h]
+
+theorem exec_while (fuel : Nat) (c : Expr) (body : Stmt) (st : St) :
+    exec fuel (.while c body) st = loop (testOf (some c)) (exec fuel body) (stepOf none) fuel st := by simp [exec]
+
+theorem exec_for (fuel : Nat) (c inc : Option Expr) (body : Stmt) (st : St) :
+    exec fuel (.for c inc body) st = loop (testOf c) (exec fuel body) (stepOf inc) fuel st := by simp [exec]
+
 /-! ### `char` -/
 
 /-- signed `char` value of a byte -/
@@ -85,6 +102,29 @@ theorem wrapTo_i32 (n : Int) (h1 : -2147483648 ≤ n) (h2 : n < 2147483648) : wr
       have h3 : (n + 4294967296) % 4294967296 = n + 4294967296 := Int.emod_eq_of_lt (by omega) (by omega)
       rw [← h3]; simp
     rw [this]; simp; omega
+
+theorem wrapTo_i8_range (n : Int) : -128 ≤ wrapTo .i8 n ∧ wrapTo .i8 n < 128 := by
+  simp only [wrapTo, Ty.bits, Ty.signed, show (Ty.i8 == Ty.bool) = false from rfl, Bool.false_eq_true, if_false, Bool.true_and]
+  have h256 : ((2 : Int) ^ 8) = 256 := by decide
+  simp only [h256]
+  have h1 := Int.emod_nonneg n (show (256 : Int) ≠ 0 by decide)
+  have h2 := Int.emod_lt_of_pos n (show (0 : Int) < 256 by decide)
+  split <;> simp_all <;> omega
+
+theorem wrapTo_i8_of_range (n : Int) (h1 : -128 ≤ n) (h2 : n < 128) : wrapTo .i8 n = n := by
+  simp only [wrapTo, Ty.bits, Ty.signed, show (Ty.i8 == Ty.bool) = false from rfl, Bool.false_eq_true, if_false, Bool.true_and]
+  have h256 : ((2 : Int) ^ 8) = 256 := by decide
+  simp only [h256]
+  by_cases hn : 0 ≤ n
+  · have : n % 256 = n := Int.emod_eq_of_lt hn (by omega)
+    rw [this]; simp; omega
+  · have : n % 256 = n + 256 := by
+      have h3 : (n + 256) % 256 = n + 256 := Int.emod_eq_of_lt (by omega) (by omega)
+      rw [← h3]; simp
+    rw [this]; simp; omega
+
+theorem wrapTo_i8_idem (n : Int) : wrapTo .i8 (wrapTo .i8 n) = wrapTo .i8 n :=
+  wrapTo_i8_of_range _ (wrapTo_i8_range n).1 (wrapTo_i8_range n).2
 
 theorem wrapTo_i32_sch (c : UInt8) : wrapTo .i32 (sch c) = sch c := by
   have := sch_range c
@@ -150,8 +190,11 @@ theorem MemBytes.load8 {m : Mem} {b : Nat} {cells : List UInt8} (h : MemBytes m 
   have hneg : ¬ ((i : Int) < 0) := by omega
   simp only [Mem.load8, Mem.block, h1, h2, bind, Except.bind, if_true, hneg, if_false, Int.toNat_natCast, hget, sch]
 
-theorem MemBytes.store8 {m : Mem} {b : Nat} {cells : List UInt8} (h : MemBytes m b cells) (i : Nat) (hi : i < cells.length) (c : UInt8) :
-    ∃ m', m.store8 b (i : Int) (sch c) = .ok m' ∧ MemBytes m' b (cells.set i c) ∧ m'.length = m.length ∧
+/-- the byte a store of the integer `v` leaves in memory -/
+def byteOf (v : Int) : UInt8 := UInt8.ofNat (wrapTo .u8 v).toNat
+
+theorem MemBytes.store8_int {m : Mem} {b : Nat} {cells : List UInt8} (h : MemBytes m b cells) (i : Nat) (hi : i < cells.length) (v : Int) :
+    ∃ m', m.store8 b (i : Int) v = .ok m' ∧ MemBytes m' b (cells.set i (byteOf v)) ∧ m'.length = m.length ∧
       ∀ b', b' ≠ b → m'[b']? = m[b']? := by
   obtain ⟨blk, h1, h2, h4, h3⟩ := h.blk
   have hneg : ¬ ((i : Int) < 0) := by omega
@@ -160,11 +203,76 @@ theorem MemBytes.store8 {m : Mem} {b : Nat} {cells : List UInt8} (h : MemBytes m
     rcases Nat.lt_or_ge b m.length with h | h
     · exact h
     · rw [List.getElem?_eq_none h] at h1; cases h1
-  refine ⟨m.set b { blk with cells := blk.cells.set i (some c) }, ?_, ⟨⟨{ blk with cells := blk.cells.set i (some c) }, by simp [hb], h2, h4, ?_⟩⟩, by simp, ?_⟩
+  refine ⟨m.set b { blk with cells := blk.cells.set i (some (byteOf v)) }, ?_, ⟨⟨{ blk with cells := blk.cells.set i (some (byteOf v)) }, by simp [hb], h2, h4, ?_⟩⟩, by simp, ?_⟩
   · simp only [Mem.store8, Mem.block, h1, h2, h4, bind, Except.bind, if_true, hneg, if_false, Int.toNat_natCast, hlen,
-      Bool.not_true, Bool.false_eq_true, byte_of_sch]
+      Bool.not_true, Bool.false_eq_true, byteOf]
   · simp [h3, List.map_set]
   · intro b' hb'
     simp [Ne.symm hb']
+
+theorem MemBytes.store8 {m : Mem} {b : Nat} {cells : List UInt8} (h : MemBytes m b cells) (i : Nat) (hi : i < cells.length) (c : UInt8) :
+    ∃ m', m.store8 b (i : Int) (sch c) = .ok m' ∧ MemBytes m' b (cells.set i c) ∧ m'.length = m.length ∧
+      ∀ b', b' ≠ b → m'[b']? = m[b']? := by
+  have := h.store8_int i hi (sch c)
+  rwa [show byteOf (sch c) = c from byte_of_sch c] at this
+
+end MiniC
+
+namespace MiniC
+
+theorem cstrFrom_str (s : List UInt8) (hs : (0 : UInt8) ∉ s) (rest : List (Option UInt8)) :
+    cstrFrom (s.map some ++ some 0 :: rest) = .ok s := by
+  induction s with
+  | nil => simp [cstrFrom]
+  | cons a s ih =>
+    have ha : a ≠ 0 := fun h => hs (h ▸ List.mem_cons_self)
+    have hs' : (0 : UInt8) ∉ s := fun h => hs (List.mem_cons_of_mem _ h)
+    simp [cstrFrom, ha, ih hs', Except.map]
+
+/-- `strlen`, `strchr` … see the string that starts at offset `k` of a block holding `s` -/
+theorem MemBytes.cstr {m : Mem} {b : Nat} {s : List UInt8} (h : MemBytes m b (s ++ [0])) (hs : (0 : UInt8) ∉ s)
+    (k : Nat) (hk : k ≤ s.length) : m.cstr b (k : Int) = .ok (s.drop k) := by
+  obtain ⟨blk, h1, h2, _, h3⟩ := h.blk
+  have hneg : ¬ ((k : Int) < 0) := by omega
+  have hle : k ≤ blk.cells.length := by rw [h3]; simp; omega
+  have hd : blk.cells.drop k = (s.drop k).map some ++ some 0 :: [] := by
+    rw [h3, List.map_append, List.drop_append_of_le_length (by simpa using hk)]
+    simp [List.map_drop]
+  have hs' : (0 : UInt8) ∉ s.drop k := fun hm => hs (List.mem_of_mem_drop hm)
+  simp only [Mem.cstr, Mem.block, h1, h2, bind, Except.bind, if_true, hneg, if_false, Int.toNat_natCast, hle, hd, cstrFrom_str _ hs']
+
+end MiniC
+
+namespace MiniC
+
+/-- loops with an invariant indexed by the round: `n` rounds, each re-establishing the invariant for the next index,
+    then the test fails -/
+theorem loop_inv (test : St → R (Bool × St)) (body : St → Outcome) (step : St → R St) (Post : St → Prop) :
+    ∀ (n : Nat) (Inv : Nat → St → Prop),
+    (∀ i st, i < n → Inv i st → ∃ T Q st', test st = .ok (true, T) ∧ (body T = .normal Q ∨ body T = .cont Q) ∧
+      step Q = .ok st' ∧ Inv (i + 1) st') →
+    (∀ st, Inv n st → ∃ R, test st = .ok (false, R) ∧ Post R) →
+    ∀ st fuel, Inv 0 st → n < fuel → ∃ R, loop test body step fuel st = .normal R ∧ Post R := by
+  intro n
+  induction n with
+  | zero =>
+    intro Inv _ hend st fuel h0 hf
+    obtain ⟨f, rfl⟩ : ∃ f, fuel = f + 1 := ⟨fuel - 1, by omega⟩
+    obtain ⟨R, ht, hp⟩ := hend st h0
+    exact ⟨R, by simp [loop, ht], hp⟩
+  | succ n ih =>
+    intro Inv hstep hend st fuel h0 hf
+    obtain ⟨f, rfl⟩ : ∃ f, fuel = f + 1 := ⟨fuel - 1, by omega⟩
+    obtain ⟨T, Q, st', ht, hb, hs, hi⟩ := hstep 0 st (by omega) h0
+    obtain ⟨R, hl, hp⟩ := ih (fun i => Inv (i + 1)) (fun i st hi' => hstep (i + 1) st (by omega)) hend st' f hi (by omega)
+    refine ⟨R, ?_, hp⟩
+    rcases hb with hb | hb <;> simp [loop, ht, hb, hs, hl]
+
+theorem exec_inl_var {fuel : Nat} {args : Args} {nl : Nat} {body : Stmt} {st st1 st' : St} {vs : List Val} {b : Nat} {o : Int} {i : Nat}
+    (ha : evalArgs args st = .ok (vs, st1))
+    (hb : exec fuel body { mem := st1.mem, loc := vs ++ List.replicate (nl - vs.length) .undef } = .ret (.ptr b o) st')
+    (hi : i < st1.loc.length) :
+    exec fuel (.inl (some (.var i)) .ptr args nl body) st = .normal { mem := st'.mem, loc := st1.loc.set i (.ptr b o) } := by
+  simp [exec, ha, hb, evalL, convert, writePlace, hi, Except.bind]
 
 end MiniC
